@@ -26,7 +26,7 @@ def _props(P):
                    also=[dict(pkg="proc", test="TestC03b", quick=(200, 300), thorough=(8, 1500, 2400), env={"VERIF_NEEDS_SERVER": "1"})]),
         "C04": sim("TestC04", (4, 1200, 300), (16, 12000, 3000), also=[equiv("CreatePromise,CreatePromiseAndTask,CompletePromise,ReadPromise,SearchPromises")]),
         "C05": sim("TestC05", (4, 1200, 300), (16, 12000, 3000), regress="TestRegressC05", also=[equiv("CreateCallback,CreateSubscription,CompletePromise")]),
-        "C06": sim("TestC06", (4, 40, 300), (16, 40, 3000), level="fault_enumeration",
+        "C06": sim("TestC06", (4, 40, 300), (16, 80, 3000), level="fault_enumeration",
                    also=[dict(pkg="proc", test="TestC06b", quick=(6, 300), thorough=(8, 12, 2400), env={"VERIF_NEEDS_SERVER": "1"})]),
         "C07": sim("TestC07", (4, 1000, 300), (16, 12000, 3000), also=[equiv("ClaimTask,CompleteTask,HeartbeatTasks,CreatePromiseAndTask")]),
         "C08": sim("TestC08", (4, 1000, 300), (16, 12000, 3000), also=[equiv("CreatePromise,CreatePromiseAndTask,CreateCallback,CreateSubscription,ClaimTask,CompleteTask")]),
